@@ -525,6 +525,10 @@ fn xterm_seq(k: &Value, mods: u64, alt: bool) -> Option<Vec<u8>> {
     };
     match (if alt { None } else { fin }, tilde) {
         (Some(f), _) => {
+            if f == 82 && mods >= 8 {
+                // CSI 1 ; n R with n > 8 is the cursor position report
+                return None;
+            }
             if mods == 0 {
                 Some(vec![27, if (80..=83).contains(&f) { 79 } else { 91 }, f as u8])
             } else {
@@ -638,6 +642,14 @@ pub fn run(input: &Value) -> Case {
         tags.push(format!("len={}", rs.len().min(8)));
         if !cuts.is_empty() {
             tags.push("chunked".into());
+        }
+        // known classes are DERIVED from the content of the case, never taken from the input file
+        if let Some(o) = j.as_object_mut() {
+            o.remove("known_class");
+        }
+        let all_mask8 = !rs.is_empty() && rs.iter().all(|r| r["t"] == "xterm" && u(&r["mods"]) >= 8);
+        if all_mask8 {
+            j["known_class"] = json!(["key-mask-ge-8"]);
         }
         // SGR events / face reports with an inexpressible parameter (7, 27, 39, 49 as a parameter of its own)
         let inexpr = rs.iter().any(|r| {
@@ -782,7 +794,25 @@ fn g_sgr(rng: &mut Rng) -> String {
 }
 
 fn g_report(rng: &mut Rng) -> Value {
-    match rng.below(18) {
+    match rng.below(20) {
+        18 | 19 => {
+            // a key in the xterm PC-style / VT220-style encoding, masks 0..7
+            loop {
+                let k = match rng.below(4) {
+                    0 => json!([*rng.pick(&[6u64, 7, 8, 9, 10, 11, 12, 13, 14, 15]), 0]),
+                    1 => json!([4, 1 + rng.below(12)]),
+                    2 => json!([5, 32 + rng.below(95)]),
+                    _ => json!([3, 0]),
+                };
+                let (mods, alt) = (rng.below(8), rng.chance(1, 2));
+                if let Some(w) = xterm_seq(&k, mods, alt) {
+                    // not the bare ESC-prefixes
+                    if !(w.len() <= 2 && w[0] == 27 && (w.len() == 1 || matches!(w[1], b'O' | b'P' | b'[' | b']' | b'_'))) {
+                        return json!({"t": "xterm", "k": k, "mods": mods, "alt": alt});
+                    }
+                }
+            }
+        }
         16 => json!({"t": "sgr", "p": g_sgr(rng)}),
         17 => json!({"t": "facerep", "p": g_sgr(rng)}),
         0 => {
@@ -949,7 +979,7 @@ pub fn generate(rng: &mut Rng, n: usize, tier: &str) -> Vec<Value> {
         for mods in [8u64, 9, 15, 16, 32, 64, 128, 129, 255] {
             for alt in [false, true] {
                 if xterm_seq(k, mods, alt).is_some() && (mods == 8 || mods == 128 || (u(&k[1]) + mods) % 3 == 0) {
-                    v.push(json!({"reports": [{"t": "xterm", "k": k, "mods": mods, "alt": alt}], "cuts": [], "known_class": ["key-mask-ge-8"]}));
+                    v.push(json!({"reports": [{"t": "xterm", "k": k, "mods": mods, "alt": alt}], "cuts": []}));
                 }
             }
         }
